@@ -10,7 +10,7 @@ CHECKS = {
          "Every history of operator actions and every well-signed fetch shape from the pool (up to 576 per state) is executed on a clone of the real server store; credentials may be issued only if (a), (b) or (c) of the property holds in the pre-state, unauthorized requests must leave the set of node records unchanged, and issued credentials must open only with the requesting encryption key and echo the request's nonce. Quick: reduced menus to depth 3; thorough: full menus to depth 4.",
          "Signature forgery is outside the model ('forged' = assembled from other pool members). The canonical state key drops fields no transition or oracle reads (server encryption key, bundles, state).", "6/C01", "E1"),
  "C02": ("exploration", "bounded-exhaustive capability product and request mutations (E4) through real TLS 1.3 handshakes against the real listener; explicit-state search of register/remove/connect histories (E1)",
-         "Every client in the 9-dimensional capability product (16128 vectors in thorough; all with <= 3 dishonest coordinates in quick) and every single-bit flip / truncation of an honest ALPN-carried request performs a real handshake with the real InterceptingListener under a virtual clock at which one root has expired; a connection reported as authenticated must come from a client with a TLS possession proof, a chain to a currently valid root, and nonce (and client state) signed by the key of a record the property says is consulted; no fetch-protocol connection may be returned; register/remove/connect histories of two nodes run with the real dialer.",
+         "Every client in the 9-dimensional capability product (20160 vectors in thorough; all with <= 3 dishonest coordinates in quick) and every single-bit flip / truncation of an honest ALPN-carried request performs a real handshake with the real InterceptingListener under a virtual clock at which one root has expired; a connection reported as authenticated must come from a client with a TLS possession proof, a chain to a currently valid root, and nonce (and client state) signed by the key of a record the property says is consulted; no fetch-protocol connection may be returned; register/remove/connect histories of two nodes run with the real dialer.",
          "Cryptography is trusted; the adversary holds other pool keys and captured signatures only.", "6/C02", "E4+E1"),
  "C03": ("exploration", "bounded-exhaustive input/configuration enumeration (E4) against a reference predicate, with a recording store",
          "Every single-bit flip and truncation of bundle and signature, 81 window placements x 49 skew pairs (exact ties and +-1ns included) under a frozen and a ticking virtual clock, 11 missing-field variants and node-created requests at boundary ages are sent through AuthorizeNode and FetchNodeCredentials in every enrollment mode; a request outside the widened window or failing authentication must be rejected with zero storage calls, a request inside it must be processed, and node-created requests carry exactly now..now+24h.",
